@@ -1,3 +1,46 @@
-From Ebml Require Import Base Tools Spec Writer.
-Example C09_ex : size_to_vint 127 0 = Some [64; 127].
+(* C09 — writer output does not depend on how the same document is presented.  Statements only. *)
+From Ebml Require Import Base Tools Spec Writer Proofs.Tactics Proofs.SpecProofs Proofs.WriterProofs.
+
+(* the deprecated unknown-size call is the option-based one *)
+Theorem C09_deprecated : forall sp st t, wstep sp st (OpWriteUnknown t) = wstep sp st (OpWrite t {| o_len := None; o_unknown := true |}).
+Proof. reflexivity. Qed.
+
+(* a Full item is buffered as: its Start (same options), its children (default options), its End *)
+Theorem C09_full_decomposes : forall sp id cs o st st2,
+  buffer_tag sp (TFull id cs) o st = (st2, WOk) ->
+  exists st1 stc, buffer_tag sp (TStart id) o st = (st1, WOk) /\
+                  children_loop sp (S (length (w_open st))) cs st1 = (stc, WOk) /\
+                  buffer_tag sp (TEnd id) o_default stc = (st2, WOk).
+Proof. exact full_is_start_children_end. Qed.
+
+(* an element write appends exactly id ++ size field ++ payload; the payload depends on the value only, an explicit width
+   is honoured exactly by the size field and touches nothing else *)
+Theorem C09_element_layout : forall st id ty v sl st1, write_element st id ty v sl = (st1, WOk) ->
+  exists field, w_buf st1 = w_buf st ++ id_bytes id ++ field ++ payload_of v /\ w_open st1 = w_open st /\
+                ((1 <= sl <= 8)%nat -> length field = sl).
+Proof. exact element_layout. Qed.
+
+Theorem C09_width_exact : forall n w f, size_to_vint n (S w) = Some f -> length f = S w.
+Proof. exact size_to_vint_width. Qed.
+
+(* the delivered bytes are a function of the call sequence: however the destination splits the writes (any script without a
+   hard error), write_all delivers exactly the data *)
+Theorem C09_write_all_complete : forall script data dest d s, write_all script data dest = (d, s, None) -> d = dest ++ data.
+Proof.
+  induction script as [|w script IH]; intros data dest d s H.
+  - unfold write_all in H. destruct data; inversion H; subst; [rewrite app_nil_r|]; reflexivity.
+  - destruct data as [|b data]; [cbn in H; inversion H; subst; rewrite app_nil_r; reflexivity|].
+    cbn [write_all] in H. destruct w as [n| | |c]; try (inversion H; fail).
+    + destruct n; [inversion H|]. apply IH in H. rewrite H, <- app_assoc. f_equal. apply firstn_skipn.
+    + apply IH in H. exact H.
+Qed.
+
+Example C09_ex :
+  let sp := [ {| e_id := 129; e_ty := DMaster; e_path := [] |}; {| e_id := 16643; e_ty := DMaster; e_path := [PId 129] |};
+              {| e_id := 16642; e_ty := DBinary; e_path := [PId 129; PId 16643] |} ] in
+  let u := {| o_len := None; o_unknown := true |} in
+  (* Full with the unknown-size option = Start(unknown), children, End *)
+  snd (run_writer sp [OpWrite (TFull 129 [TFull 16643 [TElem 16642 (VB [7; 8])]]) u; OpIntoInner] []) =
+  snd (run_writer sp [OpWrite (TStart 129) u; OpWrite (TStart 16643) o_default; OpWrite (TElem 16642 (VB [7; 8])) o_default;
+                      OpWrite (TEnd 16643) o_default; OpWrite (TEnd 129) o_default; OpIntoInner] [WAcc 1; WInt; WAcc 3]).
 Proof. vm_compute. reflexivity. Qed.
